@@ -79,7 +79,31 @@ Definition instr_eqb (a b : instr) : bool :=
   end.
 
 Definition src_fuel : nat := N.to_nat 3000.
-Definition tgt_fuel : nat := N.to_nat 400000.
+
+(* up to 2^k steps of the target machine without building a large unary fuel; same [step] as [run] *)
+Fixpoint run_bin (c : code) (k : nat) (s : state) : tres + state :=
+  match k with
+  | O => match step c s with Next s' => inr s' | Halt st => inl (THalt st) | SFault => inl TFault end
+  | S k => match run_bin c k s with inl r => inl r | inr s' => run_bin c k s' end
+  end.
+
+Lemma run_bin_sound c k : forall s,
+  (forall r, run_bin c k s = inl r -> exists n, run c n s = r) /\
+  (forall s', run_bin c k s = inr s' -> forall n r, run c n s' = r -> exists m, run c m s = r).
+Proof.
+  induction k; intros s; split; simpl.
+  - intros r H. destruct (step c s) eqn:E; inv H; exists 1%nat; simpl; rewrite E; reflexivity.
+  - intros s' H n r Hr. destruct (step c s) eqn:E; inv H. exists (S n). simpl. rewrite E. reflexivity.
+  - intros r H. destruct (IHk s) as [A B]. destruct (run_bin c k s) as [r1|s1].
+    + inv H. apply A. reflexivity.
+    + destruct (IHk s1) as [A1 _]. destruct (A1 r H) as [n Hn]. apply (B s1 eq_refl n r Hn).
+  - intros s' H n r Hr. destruct (IHk s) as [A B]. destruct (run_bin c k s) as [r1|s1]; [discriminate|].
+    destruct (IHk s1) as [_ B1]. destruct (B1 s' H n r Hr) as [m Hm]. apply (B s1 eq_refl m r Hm).
+Qed.
+
+Definition tgt_steps : nat := 19.   (* 2^19 steps *)
+Definition run_tgt_bin (c : code) (entry : nat) (vs : list val) : tres :=
+  match run_bin c tgt_steps (init_state entry vs) with inl r => r | inr _ => TTimeout end.
 
 Definition check_case (c : case) : N :=
   match c with
@@ -94,7 +118,7 @@ Definition check_case (c : case) : N :=
             let src := run_src src_fuel p fi vs in
             let defined := match src with Ok _ | Fault => true | _ => false end in
             let src_obs := match src with Ok v => RV v | Fault => RF | _ => RX end in
-            let tgt := obs_of_tres (run_tgt code tgt_fuel (nth fi ents' 0%nat) vs) in
+            let tgt := obs_of_tres (run_tgt_bin code (nth fi ents' 0%nat) vs) in
             (* specification: the VM and the Go toolchain agree wherever the run is defined (no overflow) *)
             let spec := negb defined || obs_eqb vm go in
             (* model: the MiniGo semantics gives that value, the target semantics reproduces the VM on the real code *)
